@@ -123,3 +123,120 @@ def rng_api(prog, nmax):
         elif r == "unknown":
             res["inconclusive"].append("oracle undecided")
     return finish(res, I, S, t0)
+
+
+def parallel_block(prog, n):
+    """prayer_times_dt_rng_block with n workers detected (message-level model of thread::scope / spawn / mpsc, see models.py): on every
+    path - every arrival order of the workers' messages, both sides of the parallelism threshold, every symbolic range - the result is
+    the union of prayer_times_dt_rng over exactly the blocks of partition(n), each block once, nothing else; the collector terminates
+    (no deadlock: every Sender is dropped) and nothing panics. The per-block computation is a recording stub."""
+    t0 = time.time()
+    res = new_res("prayer_times_dt_rng_block, %d workers: union of the partition blocks, each exactly once, under every arrival order; terminates" % n,
+                  ["prayer_times_dt_rng_block", "prayer_times_dt_rng_block::{closure#0}", "prayer_times_dt_rng_block::{closure#0}::{closure#0}",
+                   "prayer_times_dt_rng_block::{closure#0}::{closure#1}", "DateRange::partition", "DateRange::num_days"])
+    S = smt.Smt()
+    I = interp.Interp(prog, mode="sym", smt=S, max_unroll=n + 4, max_paths=200000)
+    I.avail_pll = n
+    st = interp.State()
+    s, e, dr = _range(st, 400)
+    drc = st.alloc(dr)
+    params = Opaque("params")
+    pc_ = st.alloc(params)
+    loc = Opaque("location")
+    mind = z3.Int("min_days_for_pll")
+    st.add([mind >= 0, mind <= 400])
+
+    def stub_rng(I2, st2, args, callee):
+        p, l, r = args
+        rng = I2.read(st2, r.cell, r.path)
+        k = len([x for x in st2.log if x[0] == "rng"])
+        st2.log.append(("rng", p, l, rng))
+        return [(None, ("ret", MapV("btree", [(("blk", k), Opaque(("times-of-block", k)))])))]
+    I.stubs["prayer_times_dt_rng"] = stub_rng
+    part_body = prog.find_body("DateRange::partition")
+
+    def stub_partition(I2, st2, args, callee):
+        def hook(st3, rv):
+            st3.log.append(("partition", rv))
+            return [(None, ("ret", rv))]
+        return [(None, ("call", part_body, list(args), hook, "DateRange"))]
+    I.stubs["partition"] = stub_partition
+
+    def mf(m):
+        return {"start_rd": mval(m, s), "end_rd": mval(m, e), "min_days_for_pll": mval(m, mind), "workers": n}
+
+    def rng_of(v):
+        inner = v.fields[0]          # RangeInclusive(start, end, exhausted)
+        return inner.fields[0].rd, inner.fields[1].rd
+    outs = I.run_body(prog.find_body("prayer_times_dt_rng_block"), [Ref(pc_, ()), loc, Ref(drc, ()), mind], st=st)
+    orders = set()
+    for o in outs:
+        res["paths"] += 1
+        if o.kind in ("unsupported", "unwind"):
+            res["inconclusive"].append("%s: %s" % (o.kind, str(o.info)[:200]))
+            continue
+        if o.kind == "panic":
+            r, m = S.check(o.st.pc, timeout_ms=30000, want_model=True)
+            res["queries"] += 1
+            if r == "sat":
+                dead = "DEADLOCK" in str(o.info)
+                res["cands"].append({"what": ("the collector never terminates: " if dead else "panic: ") + str(o.info)[:200], "inputs": mf(m), "parallel": True,
+                                     "deadlock": dead})
+            elif r == "unknown":
+                res["inconclusive"].append("panic path undecided")
+            continue
+        calls = [x for x in o.st.log if x[0] == "rng"]
+        parts = [x for x in o.st.log if x[0] == "partition"]
+        val = o.value
+        bad = None
+        if not isinstance(val, MapV):
+            bad = "result is not a map"
+        elif not parts:
+            # sequential branch: one call for the whole range, its map returned as is
+            if len(calls) != 1 or len(val.items) != 1 or val.items[0][0] != ("blk", 0):
+                bad = "sequential branch does not return prayer_times_dt_rng of the range (calls: %d, entries: %d)" % (len(calls), len(val.items))
+            else:
+                a, b = rng_of(calls[0][3])
+                r, m = S.check(o.st.pc + [z3.Or(to_z3(a) != s, to_z3(b) != e)], timeout_ms=30000, want_model=True)
+                res["queries"] += 1
+                if r != "unsat":
+                    bad = "sequential branch computes another range"
+        else:
+            blocks = parts[0][1].items if isinstance(parts[0][1], (VecV, Arr)) else None
+            if blocks is None or len(parts) != 1:
+                bad = "partition not called exactly once"
+            else:
+                want = [rng_of(b) for b in blocks]
+                got = [rng_of(c[3]) for c in calls]
+                same = lambda x, y: (x is y) or (is_sym(x) and is_sym(y) and x.eq(y)) or (not is_sym(x) and not is_sym(y) and x == y)
+                used = [False] * len(want)
+                for ga, gb in got:
+                    hit = [k for k, (wa, wb) in enumerate(want) if not used[k] and same(ga, wa) and same(gb, wb)]
+                    if not hit:
+                        bad = "a worker computes a range that is not an (unused) block of partition(%d)" % n
+                        break
+                    used[hit[0]] = True
+                if not bad and not all(used):
+                    bad = "block(s) of the partition never computed: %d of %d" % (used.count(False), len(want))
+                keys = sorted(k for k, _ in val.items)
+                if not bad and keys != [("blk", k) for k in range(len(calls))]:
+                    bad = "collected map has entries %r for %d computed blocks (lost or duplicated message)" % (keys, len(calls))
+                if not bad and any(not (isinstance(v, Opaque) and v.what == ("times-of-block", k[1])) for k, v in val.items):
+                    bad = "collected values are not the workers' results"
+                orders.add(tuple(k for k, (wa, wb) in enumerate(want) for (ga, gb) in got[:0]))
+                if not bad:
+                    # arrival order of this path (index of each computed block in partition order)
+                    orders.add(tuple(next(k for k, (wa, wb) in enumerate(want) if same(ga, wa) and same(gb, wb)) for ga, gb in got))
+        if bad:
+            r, m = S.check(o.st.pc, timeout_ms=30000, want_model=True)
+            res["queries"] += 1
+            if r == "sat":
+                res["cands"].append({"what": bad, "inputs": mf(m), "parallel": True})
+            elif r == "unknown":
+                res["inconclusive"].append("path feasibility undecided: " + bad)
+    orders.discard(())
+    res["notes"].append("distinct arrival orders explored: %d (max block count %d)" % (len(orders), max([len(x) for x in orders] + [0])))
+    res["witness"] = sum(1 for o in outs if o.kind == "return")
+    if not any(o.kind == "return" for o in outs):
+        res["inconclusive"].append("vacuous: no returning path")
+    return finish(res, I, S, t0)
